@@ -725,11 +725,11 @@ fn run_isolated_w(mode: &str, tag: &str, cases: &[(usize, bool, &str)], dir: &st
         let _ = std::fs::remove_file(&path);
         if let Some(why) = died {
             if k < cases.len() {
-                // a watchdog expiry may be machine load: run the case alone with six times the limit
+                // a watchdog expiry may be machine load: run the case alone with three times the limit
                 if why.starts_with("hang") && watchdog == WATCHDOG {
                     let mut d2 = Vec::new();
                     let one = [cases[k]];
-                    let r = run_isolated_w(mode, &format!("{}r", tag), &one, dir, &mut d2, WATCHDOG * 6);
+                    let r = run_isolated_w(mode, &format!("{}r", tag), &one, dir, &mut d2, WATCHDOG * 3);
                     if let Some(res) = r.get(&cases[k].0) {
                         if !res.starts_with("hang") {
                             deaths.push(format!("{} case {} slow (exceeded the {} s watchdog once, finished alone)", mode, cases[k].0, WATCHDOG.as_secs()));
